@@ -21,6 +21,10 @@ TEXT_PIECES = [b"a", b"b c", b"word", b" ", b"  ", b"    ", b"\n", b"\n\n", b"\t
                b"x" * 72, b" \n", b"\n ", b"\n  ", b"\t\n", b"\n\t", b"'\n", b"\n'", b"it's", b"say \"hi\"", b"$", b"-", b"0"]
 SMALL_ALPHA = [b"a", b" ", b"\n", b"\t", b"\"", b"'", b"\\", b"\r", b"+"]
 NAMES = [b"description", b"default", b"units", b"e:d", b"error-message", b"md:annotation", b"e:x", b"reference", b"pattern"]
+# ypr_text prints single-line statements only for YANG keywords (ypr_substmt, must, when, restrictions, if-feature); for those the
+# lexer's column counter after the keyword is exact.  After an extension keyword it over-counts (lysp_match_kw backs out without
+# undoing `*indent`), which matters for the indentation stripping of a multi-line string that starts on the keyword's line.
+KEYWORD_NAMES = [n for n in NAMES if b":" not in n]
 
 
 def gen_texts(cx):
@@ -324,11 +328,12 @@ def run_strings(cx):
                     texts.insert(0, unhex(t[2]))
     for t in texts:
         cases.append("encode " + hexs(t))
-        combos = [(1, rng.choice([0, 1, 2, 3, 6]), f, rng.choice(NAMES)) for f in (0, 1, 2, 3)]
+        combos = [(1, rng.choice([0, 1, 2, 3, 6]), f, rng.choice(KEYWORD_NAMES if f & SINGLELINE else NAMES)) for f in (0, 1, 2, 3)]
         if rng.random() < 0.3:
-            combos.append((0, rng.choice([0, 1, 5]), rng.randrange(4), rng.choice(NAMES)))
+            f = rng.randrange(4)
+            combos.append((0, rng.choice([0, 1, 5]), f, rng.choice(KEYWORD_NAMES if f & SINGLELINE else NAMES)))
         if rng.random() < 0.02:
-            combos.append((1, rng.choice([500, 32767, 65534]), rng.randrange(4), b"e:d"))
+            combos.append((1, rng.choice([500, 32767, 65534]), rng.choice([0, 2]), b"e:d"))
         for fmt, lvl, fl, name in combos:
             cases.append("yprtext %d %d %d %s %s" % (fmt, lvl, fl, hexs(name), hexs(t)))
             text_reqs.append((t, fmt, lvl, fl, name))
@@ -432,11 +437,13 @@ def laws(cx, texts, text_reqs, stmt_srcs, by_req, cases):
                     case.update({"text_hex": hexs(d[2][1]), "singlequoted": bool(d[2][2] & LYS_SINGLEQUOTED), "singleline": False,
                                  "got_hex": hexs(d[3][1]) if d[3][1] is not None else None})
                 elif r[0] == "err" or (r[0] == "ok" and r[2] != "Eof"):
-                    # the printed tree does not lex: look for the argument that explains it
-                    for kw, arg, fl, kids in flatten(a):
-                        if arg is not None and fl and text_findings(arg, bool(fl & LYS_SINGLEQUOTED), False):
-                            case.update({"text_hex": hexs(arg), "singlequoted": bool(fl & LYS_SINGLEQUOTED), "singleline": False})
-                            break
+                    # the printed tree does not lex: look for the argument that explains it (a rejected character: a CR in double quotes)
+                    cands = [(arg, fl) for kw, arg, fl, kids in flatten(a)
+                             if arg is not None and fl and text_findings(arg, bool(fl & LYS_SINGLEQUOTED), False)]
+                    if "InChar" in r:
+                        cands = [(arg, fl) for arg, fl in cands if "F50" in text_findings(arg, bool(fl & LYS_SINGLEQUOTED), False)] or cands
+                    for arg, fl in cands[:1]:
+                        case.update({"text_hex": hexs(arg), "singlequoted": bool(fl & LYS_SINGLEQUOTED), "singleline": False})
                 cx.fail(COMP, "yprp_stmt output does not lex back to the statement tree", case)
 
 
@@ -455,4 +462,6 @@ def classify(component, what, case):
     if "F53" in f and "InChar" in [str(x) for x in case.get("reply", [])] and "F50" not in f:
         return "F53"        # the lexer rejects a plane-4 character
     f = [x for x in f if x != "F53"] or f
+    if "F50" in f and "InChar" in [str(x) for x in case.get("reply", [])]:
+        return "F50"        # the lexer rejects the CR
     return f[0] if f else None
